@@ -140,6 +140,8 @@ func c12Device(s *c12Scn) (*simdev.CLI, []*channel.SendInteractiveEvent, []strin
 	return cli, events, phrases
 }
 
+const c12LogLine = "%SYS-6-LOGGING: console logging of level notifications enabled"
+
 func c12Run(s *c12Scn, pace *json.Encoder, logEnc *json.Encoder, mu *sync.Mutex) verdict {
 	v := verdict{ID: s.ID, Variant: s.Kind, OK: true, Nontrivial: true}
 	cli, events, phrases := c12Device(s)
@@ -160,8 +162,17 @@ func c12Run(s *c12Scn, pace *json.Encoder, logEnc *json.Encoder, mu *sync.Mutex)
 			case "grants":
 				c.Mode = "privilege-exec"
 
+				if s.ID%2 == 0 {
+					// the prompt is not the last thing in this piece of output: a console log line stands behind it
+					c.AfterPromptOnce = "\r\n" + c12LogLine
+				}
+
 				return ""
 			case "refuses":
+				if s.ID%2 == 0 {
+					c.AfterPromptOnce = "\r\n" + c12LogLine
+				}
+
 				return "% Access denied"
 			}
 
@@ -424,6 +435,12 @@ func c12Run(s *c12Scn, pace *json.Encoder, logEnc *json.Encoder, mu *sync.Mutex)
 
 		e["resplen"] = len(reacts[i])
 		e["need"] = len(reacts[i]) - trailingWS(reacts[i])
+
+		if k := bytes.Index(reacts[i], []byte(c12LogLine)); k >= 2 {
+			// what stands behind the prompt need not be awaited
+			first := reacts[i][:k-2]
+			e["need"] = len(first) - trailingWS(first)
+		}
 
 		if k := bytes.Index(reacts[i], []byte(cli.AfterBare)); cli.AfterBare != "" && k >= 2 {
 			// the answer to the bare return is the first prompt; the log line and the redrawn prompt behind it need not be awaited
